@@ -231,7 +231,8 @@ fn runs(ranges: &[(u64, usize)]) -> Vec<(u64, u64)> {
         let mut end = ranges[i].0 + ranges[i].1 as u64;
         let mut j = i + 1;
         while j < ranges.len() && ranges[j].0 == end { end += ranges[j].1 as u64; j += 1; }
-        out.push((start, end - start));
+        // (a run of empty ranges only needs no request: an empty range is complete before anything is asked for)
+        if end > start { out.push((start, end - start)); }
         i = j;
     }
     out
@@ -253,6 +254,12 @@ fn gen_ranges(rng: &mut Rng, flen: usize) -> Vec<(u64, usize)> {
         for i in (1..sel.len()).rev() { let j = rng.below(i as u64 + 1) as usize; sel.swap(i, j); }
     }
     sel.truncate(12);
+    // an empty range somewhere in the list (offset of a neighbour, or anywhere): its bytes are no bytes
+    if !sel.is_empty() && rng.chance(1, 6) {
+        let k = rng.below(sel.len() as u64 + 1) as usize;
+        let off = if k < sel.len() && rng.chance(1, 2) { sel[k].0 } else if k > 0 { sel[k - 1].0 + sel[k - 1].1 as u64 } else { rng.below(flen as u64) };
+        sel.insert(k, (off, 0));
+    }
     sel
 }
 
